@@ -1,1 +1,9 @@
 import XPathV.Theorems.C17
+#print axioms XPathV.Theorems.C17.structural_rejections
+#print axioms XPathV.Theorems.C17.min_arities
+#print axioms XPathV.Theorems.C17.skipItem_mismatch
+#print axioms XPathV.Theorems.C17.operand_missing
+#print axioms XPathV.Theorems.C17.unclosed_string
+#print axioms XPathV.Theorems.C17.unclosed_predicate
+#print axioms XPathV.Theorems.C17.unknown_function
+#print axioms XPathV.Theorems.C17.trailing_text_rejected
